@@ -35,6 +35,11 @@ MONITOR_HOOK_RE = re.compile(r"(\n[ \t]*)((?:if !)?mc\.conn\.WaitForStateChange\
 # completions wait, otherwise they run in the middle of the scan
 SCAN_HOOK_RE = re.compile(r"(func \(p \*gcpPicker\) getLeastBusySubConnRef\(\) \(\*subConnRef, error\) \{\n(?:.*\n)*?\tfor _, scRef := range p\.scRefs \{)")
 
+# sixth schedule hook: in refreshSince, in front of its `gb.mu.Lock()` (the detector has decided, outside the balancer
+# lock, that the channel needs a refresh): operation `donepark` stops a deadline-exceeded completion there while another
+# completion refreshes the channel, the replacement takes over and a further call is counted
+REFRESH_HOOK_RE = re.compile(r"(func \(gb \*gcpBalancer\) refreshSince\([^)]*\) \{\n(?:(?!\n\}\n|gb\.mu\.Lock\(\))[\s\S])*?)(gb\.mu\.Lock\(\))")
+
 OTHER_CLOCK = re.compile(r"\btime\.(Since|Until)\(")
 
 class RewriteError(Exception):
@@ -65,11 +70,12 @@ def rewrite_sources(kind, pkgdir, work):
     detect_hooked = False
     monitor_hooked = False
     scan_hooked = False
+    refresh_hooked = False
     if kind == "nohook":
         # real clock, no schedule hook (race-detector stress): only tell the harness so
         gen = os.path.join(work, "zz_verif_hookgen_test.go")
         shim, imp = deliver_shim(pkgdir)
-        open(gen, "w").write("//go:build verif\n\npackage grpcgcp\n\n" + imp + "\nconst verifHookInstalled = false\nconst verifBindHookInstalled = false\nconst verifDetectHookInstalled = false\nconst verifMonitorHookInstalled = false\nconst verifScanHookInstalled = false\n" + shim)
+        open(gen, "w").write("//go:build verif\n\npackage grpcgcp\n\n" + imp + "\nconst verifHookInstalled = false\nconst verifBindHookInstalled = false\nconst verifDetectHookInstalled = false\nconst verifMonitorHookInstalled = false\nconst verifScanHookInstalled = false\nconst verifRefreshHookInstalled = false\n" + shim)
         return {os.path.join(pkgdir, "zz_verif_hookgen_test.go"): gen}
     if kind != "vclock":
         raise RewriteError("unknown rewrite " + kind)
@@ -90,6 +96,8 @@ def rewrite_sources(kind, pkgdir, work):
             hooked = hooked or n == 1
             new, n2 = BIND_HOOK_RE.subn(r"\1verifHookBind(); \2", new)
             bind_hooked = bind_hooked or n2 >= 1
+            new, n6 = REFRESH_HOOK_RE.subn(r"\1verifHookRefreshSince(); \2", new, count=1)
+            refresh_hooked = refresh_hooked or n6 == 1
         if os.path.basename(path) == "gcp_multiendpoint.go":
             new, n4 = MONITOR_HOOK_RE.subn(r"\1verifHookMonitorWait(mc.endpoint, \3); \2", new, count=1)
             monitor_hooked = monitor_hooked or n4 == 1
@@ -106,6 +114,6 @@ def rewrite_sources(kind, pkgdir, work):
     # tell the harness whether the hook could be placed (a refactored newSubConn: no `pickhold` operations)
     gen = os.path.join(work, "zz_verif_hookgen_test.go")
     shim, imp = deliver_shim(pkgdir)
-    open(gen, "w").write("//go:build verif\n\npackage grpcgcp\n\n" + imp + "\nconst verifHookInstalled = %s\nconst verifBindHookInstalled = %s\nconst verifDetectHookInstalled = %s\nconst verifMonitorHookInstalled = %s\nconst verifScanHookInstalled = %s\n" % ("true" if hooked else "false", "true" if bind_hooked else "false", "true" if detect_hooked else "false", "true" if monitor_hooked else "false", "true" if scan_hooked else "false") + shim)
+    open(gen, "w").write("//go:build verif\n\npackage grpcgcp\n\n" + imp + "\nconst verifHookInstalled = %s\nconst verifBindHookInstalled = %s\nconst verifDetectHookInstalled = %s\nconst verifMonitorHookInstalled = %s\nconst verifScanHookInstalled = %s\nconst verifRefreshHookInstalled = %s\n" % ("true" if hooked else "false", "true" if bind_hooked else "false", "true" if detect_hooked else "false", "true" if monitor_hooked else "false", "true" if scan_hooked else "false", "true" if refresh_hooked else "false") + shim)
     out[os.path.join(pkgdir, "zz_verif_hookgen_test.go")] = gen
     return out
